@@ -36,8 +36,53 @@ def tr_wrapper(run):
         f.write("\nDefinition ids_fields_const : bool := %s.\n" % ("true" if const_ok else "false"))
 
 
-def indirect_sites(node, fname, out):
+def _strip_casts(n):
+    while n.get("kind") in ("ParenExpr", "ImplicitCastExpr", "CStyleCastExpr") and n.get("inner"):
+        n = n["inner"][0]
+    return n
+
+
+def dlsym_locals(fnode):
+    """local pointer variables of one function whose every assignment/initialiser is dlsym(<handle>, "<name>") with one and the same
+    name: {decl id: name}.  A call through such a variable is described by where the pointer comes from, not by the variable's name."""
+    seen = {}
+
+    def src(e):
+        e = _strip_casts(e)
+        if e.get("kind") == "CallExpr" and e.get("inner"):
+            c = _strip_casts(e["inner"][0])
+            if c.get("kind") == "DeclRefExpr" and c.get("referencedDecl", {}).get("name") == "dlsym" and len(e["inner"]) == 3:
+                a = _strip_casts(e["inner"][2])
+                if a.get("kind") == "StringLiteral":
+                    return a.get("value", "").strip('"')
+        return None
+
+    def walk(n):
+        k = n.get("kind")
+        if k == "VarDecl" and n.get("storageClass") not in ("static", "extern"):
+            ini = [c for c in n.get("inner", []) or [] if isinstance(c, dict) and c.get("kind", "").endswith("Expr")]
+            seen.setdefault(n.get("id"), [])
+            if ini:
+                seen[n["id"]].append(src(ini[0]))
+        if k == "BinaryOperator" and n.get("opcode") == "=" and n.get("inner"):
+            l = _strip_casts(n["inner"][0])
+            if l.get("kind") == "DeclRefExpr" and l.get("referencedDecl", {}).get("id") in seen:
+                seen[l["referencedDecl"]["id"]].append(src(n["inner"][1]))
+        if k == "UnaryOperator" and n.get("opcode") == "&" and n.get("inner"):
+            l = _strip_casts(n["inner"][0])
+            if l.get("kind") == "DeclRefExpr" and l.get("referencedDecl", {}).get("id") in seen:
+                seen[l["referencedDecl"]["id"]].append(None)          # address taken: could be written elsewhere
+        for c in n.get("inner", []) or []:
+            if isinstance(c, dict):
+                walk(c)
+    walk(fnode)
+    return {i: v[0] for i, v in seen.items() if v and all(x is not None and x == v[0] for x in v)}
+
+
+def indirect_sites(node, fname, out, dl=None):
     """collect (function, description of the called pointer expression) for every call not through a function designator"""
+    if dl is None:
+        dl = dlsym_locals(node)
     k = node.get("kind")
     if k == "CallExpr" and node.get("inner"):
         callee = strip(node["inner"][0])
@@ -49,10 +94,12 @@ def indirect_sites(node, fname, out):
                     break
                 n = n["inner"][0]
             head = n.get("referencedDecl", {}).get("name") or n.get("name") or n.get("kind")
+            if n.get("referencedDecl", {}).get("id") in dl:
+                head = "dlsym<%s>" % dl[n["referencedDecl"]["id"]]
             out.append((fname, str(head)))
     for c in node.get("inner", []) or []:
         if isinstance(c, dict):
-            indirect_sites(c, fname, out)
+            indirect_sites(c, fname, out, dl)
 
 
 def tr_calls(run, objs):
